@@ -78,7 +78,11 @@ where
     match rx.recv_timeout(Duration::from_secs(5)) {
         Ok(r) => r.to_string(),
         Err(mpsc::RecvTimeoutError::Disconnected) => "P".into(),
-        Err(mpsc::RecvTimeoutError::Timeout) => "T".into(),
+        Err(mpsc::RecvTimeoutError::Timeout) => {
+            // the abandoned thread keeps spinning: end this child after the answer
+            crate::engine::EXIT_AFTER_ANSWER.store(true, std::sync::atomic::Ordering::SeqCst);
+            "T".into()
+        },
     }
 }
 
